@@ -680,16 +680,21 @@ pub fn generate_with_grid(rng: &mut Rng, cfg: &GenCfg) -> (PragProblem, Vec<(i64
             1 => json!({"type": "multiplier", "value": 0.5, "parking": *rng.pick(&[0f64, 5., 20.])}),
             _ => json!({"type": "fixed", "value": 5.0, "parking": *rng.pick(&[0f64, 5., 20.])}),
         };
-        plan.insert(
-            "clustering".into(),
-            json!({
-                "type": "vicinity",
-                "profile": {"matrix": profiles[0]},
-                "threshold": {"duration": (span / 2) as f64 * 2., "distance": (span / 2) as f64, "minSharedTime": 10.0, "maxJobsPerCluster": rng.range_i64(2, 5)},
-                "visiting": *rng.pick(&["continue", "return"]),
-                "serving": serving,
-            }),
-        );
+        let mut clustering = json!({
+            "type": "vicinity",
+            "profile": {"matrix": profiles[0]},
+            "threshold": {"duration": (span / 2) as f64 * 2., "distance": (span / 2) as f64, "minSharedTime": 10.0, "maxJobsPerCluster": rng.range_i64(2, 5)},
+            "visiting": *rng.pick(&["continue", "return"]),
+            "serving": serving,
+        });
+        if rng.chance(0.5) {
+            // explicit filtering policy: some (possibly zero) jobs must not be clustered
+            let n = rng.usize_below(4).min(jobs.len());
+            let ids: Vec<Value> = (0..n).filter_map(|_| jobs[rng.usize_below(jobs.len())].get("id").cloned()).collect();
+            clustering["filtering"] = json!({"excludeJobIds": ids});
+            features.insert("clustering-filtering".into());
+        }
+        plan.insert("clustering".into(), clustering);
         features.insert("clustering".into());
     }
     plan.insert("jobs".into(), Value::Array(jobs.into_iter().map(Value::Object).collect()));
